@@ -908,7 +908,7 @@ def generate(tier, seed):
         for N in range(0, 7 if quick else 9):
             cases += _guard(trend_jac_case, "trend-jacobian", vd, rnd, N, "trend-jacobian")
             cases += _guard(trend_predict_case, "trend-predict", vd, rnd, N, fitted=bool((N + rep) % 2), kind="trend-predict")
-    for i in range(18 if quick else 108):
+    for i in range(18 if quick else 72):
         for which in ("spline", "vector", "trend"):
             cases += _guard(dtype_case, "jacobian-dtype-" + which, vd, rnd, which, i)
     for i in range(8 if quick else 80):
